@@ -272,7 +272,7 @@ func TestVerif_C02_Authz(t *testing.T) {
 				}
 			}
 			q.viaPfx = q.ns != "" && rapid.Bool().Draw(rt, "viaPrefix")
-			q.remote = rapid.SampledFrom([]string{"10.1.1.1", "10.1.1.1", "10.1.1.1", "192.168.0.9"}).Draw(rt, "remote")
+			q.remote = rapid.SampledFrom([]string{"10.1.1.1", "10.1.1.1", "10.1.1.1", "192.168.0.9", ""}).Draw(rt, "remote") // "": a connection without a remote address (unix socket listener)
 			if q.ns == "ns1/" && strings.HasPrefix(q.path, "rc/") {
 				q.path = "rb/kv/x" // rc/ is not mounted in ns1
 			}
